@@ -1,6 +1,10 @@
 package main
 
-import "verif/engine/interp"
+import (
+	"strings"
+
+	"verif/engine/interp"
+)
 
 // shortShapes: S0 (raw), S1 (open tags), S2 (lexical-mode prefixes) of DESIGN.md
 // section 3 for one harness entry.
@@ -10,20 +14,50 @@ func shortShapes(entry string, K0, K1, K2 int, vers string, fuel int64, cover ..
 		out = append(out, JobNeed{Job: jobTmpl(entry, tag, t, vers, fuel), Cover: cover})
 	}
 	add("S0", tmpl(tH('a', 0, K0)))
-	for _, p := range []string{"<?php ", "<?", "<?="} {
+	for _, p := range []string{"<?php ", "<?", "<?=", "<?php"} {
 		add("S1", tmpl(tC(p), tH('a', 0, K1)))
 	}
 	for _, p := range modePrefixes {
 		add("S2", tmpl(tC(p), tH('a', 0, K2)))
 	}
+	for _, p := range phpPrefixes {
+		add("S2", tmpl(tC(p), tH('a', 0, K1)))
+	}
+	for _, p := range rawPrefixes {
+		add("S2", tmpl(tC(p), tH('a', 0, K1)))
+	}
 	return out
 }
+
+// longShapes (S9): concrete programs long enough to cross the 1024-entry blocks of
+// the token and position pools several times.
+func longShapes(entry string, fuel int64) []JobNeed {
+	var out []JobNeed
+	progs := []string{
+		"<?php\n" + strings.Repeat("$a;\n", 400),
+		"<?php\n" + strings.Repeat("f($a, [1, 'x' => $b->c]) /* c */ ;\n", 120),
+		"<?php " + strings.Repeat("if ($a) { echo \"x $b[0] {$c->d}\"; } else { $e = <<<A\n  t $f\nA;\n }\n", 60),
+	}
+	for _, ver := range []string{"7.4", "5.6"} {
+		for _, p := range progs {
+			j := jobTmpl(entry, "S9 long program", tmpl(tC(p)), ver, 40*fuel)
+			j.Params["base"] = p
+			j.Params["prev"] = 0
+			j.Params["next"] = 0
+			j.Params["ctx"] = ""
+			out = append(out, JobNeed{Job: j})
+		}
+	}
+	return out
+}
+
+const longBound = "S9: three concrete programs of 1 600 to 3 000 tokens (repeated statements) under 7.4 and 5.6 - they cross the 1024-entry pool blocks"
 
 func shortBounds(K0, K1, K2 int, vers string) []string {
 	return []string{
 		bound("S0 raw input: every byte string of length 0..%d", K0),
-		bound("S1 \"<?php \" / \"<?\" / \"<?=\" followed by every byte string of length 0..%d", K1),
-		bound("S2 %d lexical-mode prefixes followed by every byte string of length 0..%d", len(modePrefixes), K2),
+		bound("S1 \"<?php \" / \"<?\" / \"<?=\" / \"<?php\" followed by every byte string of length 0..%d", K1),
+		bound("S2 %d lexical-mode prefixes followed by every byte string of length 0..%d; %d PHP-mode (numbers, variables, names, brackets, close tag) and %d HTML-mode (shebang line, text before the open tag, close tag) prefixes followed by every byte string of length 0..%d", len(modePrefixes), K2, len(phpPrefixes), len(rawPrefixes), K1),
 		"versions " + vers + " (one representative per behaviour class; class equivalence is C09's claim)",
 	}
 }
